@@ -935,6 +935,11 @@ func MapKeys[K comparable, V any](m map[K]V) []K {
 		keys = append(keys, k)
 	}
 	sortKeys(keys)
+	if E == nil && FreeMapReverse {
+		for i, j := 0, len(keys)-1; i < j; i, j = i+1, j-1 {
+			keys[i], keys[j] = keys[j], keys[i]
+		}
+	}
 	if len(keys) > 1 && E != nil && mapOrderDeviations() {
 		switch Choose(ClsEnv, 2, "map-order") {
 		case 1:
@@ -945,6 +950,10 @@ func MapKeys[K comparable, V any](m map[K]V) []K {
 	}
 	return keys
 }
+
+// FreeMapReverse makes range-over-map iterate in reversed sorted order outside a controlled execution
+// (sequential harnesses use it to cover both orders).
+var FreeMapReverse bool
 
 func mapOrderDeviations() bool {
 	e := E
